@@ -38,13 +38,14 @@ Definition x_consistent {V W:Type} (eqb:V -> W -> bool) (ok:string -> bool) (r:l
   forallb (fun f => match sassoc (fst f) r with Some x => ok (fst f) && eqb x (snd f) | None => false end) files &&
   (negb allgood || forallb (fun kv => smem (fst kv) (map fst files)) r).
 
-Definition c14x_case := (module * vinfo * cli * list proj_ep * rxtab * env * xobs)%type.
+Definition c14x_case := (module * vinfo * cli * pformats * list proj_ep * rxtab * env * xobs)%type.
 
 Definition c14x_ok_k (k:bool) (c:c14x_case) : bool :=
-  match c with (m, vi, cl, eps, t, e, obs) =>
-    match gen_integrations (rx_of t) m vi k (fuel_bound m) cl eps, obs with
-    | CPanicked p, XP n => N.eqb (cpanic_code p) n
-    | COk r, XR st files => x_consistent content_eqb (out_ok e) r st files
+  match c with (m, vi, cl, pf, eps, t, e, obs) =>
+    match gen_integrations (rx_of t) m vi k (fuel_bound m) cl pf eps, obs with
+    | GFormatError, XR st files => negb st && match files with [] => true | _ => false end   (* an error, nothing written *)
+    | GRan (CPanicked p), XP n => N.eqb (cpanic_code p) n
+    | GRan (COk r), XR st files => x_consistent content_eqb (out_ok e) r st files
     | _, _ => false
     end
   end.
